@@ -11,8 +11,9 @@ VERIF = os.path.dirname(os.path.dirname(os.path.abspath(__file__)))
 REPO = os.environ.get("VERIF_REPO", "/repo")
 TARGET = os.environ.get("VERIF_TARGET", os.path.join(VERIF, "target"))
 WORK = os.environ.get("VERIF_WORK", os.path.join(VERIF, "work"))
-EVIDENCE_DIR = os.path.join(VERIF, "evidence")
-REPLAY_DIR = os.path.join(VERIF, "replays")
+_OUT = os.environ.get("VERIF_OUT", VERIF)   # scratch runs against a mutated copy write elsewhere
+EVIDENCE_DIR = os.path.join(_OUT, "evidence")
+REPLAY_DIR = os.path.join(_OUT, "replays")
 NCPU = os.cpu_count() or 8
 
 
